@@ -33,6 +33,7 @@ def run(ctx):
     r4_purity(ctx, dense + sparse)
     r5_no_silent_none(ctx, dense + sparse)
     r6_split(ctx)
+    r7_predicate_stage(ctx)
 
 
 def r1_complete(ctx, dense, sparse):
@@ -77,6 +78,27 @@ def r2_keyset(ctx, sparse):
                 ctx.ob("C13.R2", c.rel, f"{c.qual}.{m}", fn, f"{m} accounts for self.{attr}, which keys() includes in the key set", ok,
                        stmt=f"{c.name}.{m} vs keys(): self.{attr}")
     ctx.floor("C13.R2", "key-set agreement instances", n, 9)
+    # __len__ / __iter__ count and enumerate exactly the key-set expression of keys()
+    for c in sparse:
+        keys = c.methods.get("keys")
+        if keys is None:
+            continue
+        K = None
+        for x in walk_shallow(keys):
+            if isinstance(x, ast.BinOp) and isinstance(x.op, (ast.BitOr, ast.Sub, ast.BitAnd)) and _self_attrs(x):
+                K = x
+                break
+        if K is None:
+            continue
+        for m, wrap in (("__len__", "len"), ("__iter__", "iter")):
+            fn = c.methods.get(m)
+            if fn is None:
+                continue
+            rets = [r.value for r in walk_shallow(fn) if isinstance(r, ast.Return) and r.value is not None]
+            ok = len(rets) == 1 and isinstance(rets[0], ast.Call) and call_name(rets[0]) == wrap and len(rets[0].args) == 1 and \
+                unparse(rets[0].args[0]) in (unparse(K), "self.keys()")
+            ctx.ob("C13.R2", c.rel, f"{c.qual}.{m}", fn, f"{m} is {wrap}() of the same key-set expression keys() uses (no double counting, no missing default keys)", ok,
+                   detail={"keys_expr": unparse(K), m: [unparse(r) for r in rets]}, stmt=f"{c.name}.{m} == {wrap}(keys-expr)")
 
 
 def r3_load_once(ctx, classes):
@@ -182,7 +204,30 @@ def r6_split(ctx):
     ctx.ob("C13.R6", ROWS, "DropOne.__iter__", it, "iteration skips exactly the dropped index", r == "iter(chain(islice(row, ind), islice(row, ind + 1, None)))", detail={"iter": r})
 
 
+def r7_predicate_stage(ctx):
+    ctx.rule("C13.R7", "DropRows applies the row predicate to the rows as the previous stage produced them (before columns are dropped / rows are wrapped)")
+    fn = ctx.fn(ROWS, "DropRows.filter")
+    ff = [c for c in walk_shallow(fn) if isinstance(c, ast.Call) and call_name(c) == "filterfalse"]
+    ctx.floor("C13.R7", "row-predicate applications in DropRows.filter", len(ff), 1)
+    wraps = [x for x in walk_shallow(fn) if isinstance(x, ast.GeneratorExp) and isinstance(x.elt, ast.Call) and call_name(x.elt) in ("KeepDense", "DropSparse")]
+    for c in ff:
+        src = c.args[1] if len(c.args) == 2 else None
+        # the predicate's input must be the peeked input stream: a name whose only earlier bindings are peek_first(...) / itself
+        ok = isinstance(src, ast.Name) and unparse(c.args[0]) == "self._drop_row"
+        if ok:
+            binds = [x for x in walk_shallow(fn) if isinstance(x, ast.Assign) and x.lineno < c.lineno and any(src.id in [n.id for n in ast.walk(t) if isinstance(n, ast.Name)] for t in x.targets)]
+            ok = all(has_call(b.value, "peek_first") for b in binds) and bool(binds)
+        before_wrap = all(c.lineno < w.lineno for w in wraps)
+        ctx.ob("C13.R7", ROWS, "DropRows.filter", c, "the predicate sees un-dropped rows: it is applied to the peeked input before any KeepDense/DropSparse wrapping", ok and before_wrap,
+               detail={"input": unparse(src) if src is not None else None})
+    for w in wraps:
+        it = w.generators[0].iter
+        ok = isinstance(it, ast.Name)
+        ctx.ob("C13.R7", ROWS, "DropRows.filter", w, "column dropping wraps every surviving row once", ok and unparse(w.elt.args[0]) == unparse(w.generators[0].target), stmt="wrap " + call_name(w.elt))
+
+
 CONTROLS = [
+    ("len double counts", ROWS, M.replace_expr("LazySparse.__len__", "len(self._load_or_get().keys() | self._nsp)", "len(self._load_or_get()) + len(self._nsp)"), "C13.R2"),
     ("DropSparse without keys", ROWS, lambda tree: _remove_method(tree, "DropSparse", "keys"), "C13.R1"),
     ("EncodeSparse len ignores nsp", ROWS, M.replace_expr("EncodeSparse.__len__", "len(self._row.keys() | self._nsp)", "len(self._row)"), "C13.R2"),
     ("loader called in __iter__", ROWS, M.replace_expr("LazyDense.__iter__", "iter(self._load_or_get())", "iter(self._row())"), "C13.R3"),
